@@ -8,12 +8,12 @@ Local Open Scope Z_scope.
 (* constructors for the cases files *)
 Definition P (name : list Z) (name_ok regex : bool) (s : src) (on_demand : bool) (srt_pub srt_read : Z)
              (redirect redirect_ok : bool) (cam : Z) (secondary rpi_ok other_ok aa aa_src_ok abs_ts run_init run_demand : bool)
-             (record_path : list Z) (seg del : Z) : pathc :=
+             (record_path : list Z) (seg del : Z) (tracks : list (Z * Z * Z)) : pathc :=
   {| p_name := name; p_name_ok := name_ok; p_regex := regex; p_source := s; p_on_demand := on_demand;
      p_srt_pub := srt_pub; p_srt_read := srt_read; p_redirect := redirect; p_redirect_ok := redirect_ok;
      p_cam := cam; p_secondary := secondary; p_rpi_ok := rpi_ok; p_other_ok := other_ok; p_aa := aa;
      p_aa_src_ok := aa_src_ok; p_abs_ts := abs_ts; p_run_init := run_init; p_run_demand := run_demand;
-     p_record_path := record_path; p_seg := seg; p_del := del |}.
+     p_record_path := record_path; p_seg := seg; p_del := del; p_tracks := tracks |}.
 
 Definition G (read_to write_to wqs : Z) (rbc : option Z) (udp : Z) (playback other_ok : bool) (paths : list pathc) : gconf :=
   {| g_read_to := read_to; g_write_to := write_to; g_wqs := wqs; g_read_buffer_count := rbc; g_udp := udp;
@@ -32,7 +32,8 @@ Inductive case :=
                                                      the driver when the decoded input has >= 24 bytes *)
       (o : dobs)
 | EnvMap (entry : Z) (panicked : bool)            (* env.Load on a map entry: 0 absent, 1 present-nil, 2 present *)
-| EnvList (pointer_nil : bool) (panicked : bool). (* env.Load, empty variable on a list parameter *)
+| EnvList (pointer_nil : bool) (panicked : bool)  (* env.Load, empty variable on a list parameter *)
+| EnvSub (pointer_nil : bool) (panicked : bool).  (* env.Load, variable extending the name of an Unmarshaler parameter *)
 
 Definition same_result (m r : gconf) : bool :=
   (g_wqs m =? g_wqs r) && (g_read_to m =? g_read_to r) && (g_udp m =? g_udp r) &&
@@ -71,6 +72,11 @@ Definition mismatch (c : case) : bool :=
       | EnvPanic => negb panicked
       | EnvUsesEntry _ => panicked
       end
+  | EnvSub nilp panicked =>
+      match env_subkey_step true nilp with
+      | EnvPanic => negb panicked
+      | EnvUsesEntry _ => panicked
+      end
   end.
 
 (* the property on the observation alone: never a panic; a loaded configuration is documented *)
@@ -88,4 +94,5 @@ Definition spec_fail (c : case) : bool :=
   | Dec _ _ _ _ _ _ _ o => match o with DecPanic => true | _ => false end
   | EnvMap _ panicked => panicked
   | EnvList _ panicked => panicked
+  | EnvSub _ panicked => panicked
   end.
